@@ -164,10 +164,10 @@ IB2 == <<I(0), I(1), I(-1), I(2), I(3), I(-2), LInt(P7), LInt(N7m1), LInt(P8m1),
 IB == IF Tier = 1 THEN IB1 ELSE IB2
 BB1 == <<I(0), I(-1), I(-2), LInt(P8m1), LInt(N7), LInt(N63m1), LInt(P100)>>
 BB == IF Tier = 1 THEN BB1 ELSE BB1 \o <<LInt(P63), LInt(N63), LInt(P511), LInt(N511), LRune(97), LFloat(Sm(1), 0)>>
-MX1 == <<I(7), LRune(97), LFloat(Sm(3), -1), LFloat(Sm(7), 0), LFloat(Sm(1), 1024), LFloat(Zero, 0),
+MX1 == <<I(2), LRune(97), LFloat(Sm(3), -1), LFloat(Sm(7), 0), LFloat(Sm(1), 1024), LImag(Sm(1), 0), LFloat(Zero, 0),
          LImag(Sm(3), -1), LStr(<<115>>), LBool(TRUE),
          Cv("int8", LInt(P7m1)), Cv("float32", LFloat(Sm(3), -1)), Cv("float64", I(7)), Cv("complex128", LImag(Sm(3), -1))>>
-MX2 == <<I(0), I(-1), LFloat(Sm(1), -1), LFloat(Sm(1), -1074), LImag(Sm(1), 0), LInt(P64p1), LInt(F53p1), LInt(P511), LFloat(Sm(1), 1023), LFloat(F53p1, 0), LFloat(P63p1, 0), LFloat(Sm(1), -149),
+MX2 == <<I(0), I(-1), I(7), LFloat(Sm(1), -1), LFloat(Sm(1), -1074), LInt(P64p1), LInt(F53p1), LInt(P511), LFloat(Sm(1), 1023), LFloat(F53p1, 0), LFloat(P63p1, 0), LFloat(Sm(1), -149),
          LFloat(Sm(1), 5000), LFloat(P63p1, 5000), LImag(Zero, 0), LStr(<<>>), LBool(FALSE),
          Cv("uint8", LInt(P8m1)), Cv("int64", LInt(N63)), Cv("uint64", LInt(P64m1)), Cv("float32", LFloat(MaxF32, 0)), Cv("float64", LFloat(Sm(1), 1023)),
          Cv("float64", LFloat(Sm(1), -1074)), Cv("complex64", LImag(Sm(1), 0)), Cv("string", LStr(<<115>>)), Cv("bool", LBool(TRUE))>>
@@ -244,15 +244,14 @@ TreeOf(gs, id, n1) == IF id <= n1 THEN Depth1At(gs, id) ELSE Depth2(gs, id - n1,
 \* non-literal operands as `kids` (observed on their own by the driver), so that the judge can attribute a failure of
 \* the whole expression to the operand that already fails.
 Observe(t) == LET r == Eval(t) IN
-              [expr |-> t, src |-> Show(t), reflit |-> RefLit(r), vt |-> PrintType(r), dt |-> IF DynObservable(r) THEN 1 ELSE 0,
-               ik |-> IF KindObservable(r) THEN 1 ELSE 0, kids |-> <<>>]
+              [expr |-> t, src |-> Show(t), reflit |-> RefLit(r), vt |-> PrintType(r), dt |-> IF DynObservable(r) THEN 1 ELSE 0, kids |-> <<>>]
 IsDeep(t) == t.k # "lit"
 Operands(t) == IF t.k = "bin" THEN <<t.a, t.b>> ELSE IF t.k = "lit" THEN <<>> ELSE <<t.a>>
 KidsOf(t) == LET ds == SelectSeq(Operands(t), IsDeep) IN [i \in 1..Len(ds) |-> Observe(ds[i])]
 CaseOf(gs, id, n1) ==
   LET t == TreeOf(gs, id, n1) r == Eval(t) IN
   [id |-> id, expr |-> t, src |-> Show(t), rst |-> r.st, rcls |-> r.cls, rty |-> r.ty, rchk |-> IF r.chk THEN 1 ELSE 0,
-   reflit |-> RefLit(r), vt |-> PrintType(r), dt |-> IF DynObservable(r) THEN 1 ELSE 0, ik |-> IF KindObservable(r) THEN 1 ELSE 0,
+   reflit |-> RefLit(r), vt |-> PrintType(r), dt |-> IF DynObservable(r) THEN 1 ELSE 0,
    kids |-> IF id <= n1 THEN <<>> ELSE KidsOf(t)]
 \* N2 depth-2 cases follow the N1 depth-1 cases; shard k exports the ids with id % NShards = k
 CasesOf(gs) ==
